@@ -536,6 +536,11 @@ func (this *Writer) Write(block []byte) (int, error) {
 		return 0, &IOError{msg: "Stream closed", code: kanzi.ERR_WRITE_FILE}
 	}
 
+	if atomic.LoadInt32(&this.blockID) == _CANCEL_TASKS_ID {
+		// A previous block could not be written (see processBlock): do not buffer more data
+		return 0, &IOError{msg: "Stream failed: a previous block could not be written", code: kanzi.ERR_WRITE_FILE}
+	}
+
 	off := 0
 	remaining := len(block)
 
